@@ -6,13 +6,17 @@ A case is a JSON *spec*, the abstract syntax of a post-selection expression
 
     {"k":"cond","modes":[0,2],"c":">=","n":1} | {"k":"not","x":spec} | {"k":"nary","op":"&","args":[spec,…]}
 
-(`None` = the empty PostSelect).  `user_text(spec, rng)` spells it in the user syntax of the native
+(`None` = the empty PostSelect).  `user_texts(spec, rng)` spells it in the user syntax of the native
 constructor with every negation and every group parenthesised (so the native parser has no choice), random
 white space, unsorted mode lists, redundant parentheses, leading zeros.  `judge` then checks
 
  (a) the property, on the real code only: `y = deserialize(serialize(x))` is `== x` and has the truth table
-     of `x` on all 243 states with 0..2 photons in 5 modes; the truth table of `x` is also compared with
-     `eval_spec(spec)` (the Python twin of the model's `eval`), which ties the object to the spec;
+     of `x` on `states_for(spec)`: all 243 states with 0..2 photons in 5 modes (or random ones when a mode index is
+     beyond 4) plus, for every condition, states with value - 1, value, value + 1 photons in its modes (values and
+     mode indices of several digits are generated: `WIDE_VALUES`, `WIDE_MODES`); the truth table of `x` is also
+     compared with `eval_spec(spec)` (the Python twin of the model's `eval`), which ties the object to the spec; `x`
+     is built from a text in which `& | ^ !` are spelled with the keywords `and AND or OR xor XOR NOT` at random (the
+     model does not read keywords: the object is compared with the one built from the symbol spelling);
  (b) the payload written by the real serializer equals the model's text character by character (the
      writer variant — as found `! x` / repaired `(! x)` — is `fixed`; the other variant is recognised and
      counted, never reported by itself: the round trip decides), and the rebuilt object prints as the
@@ -46,24 +50,45 @@ NATIVE_ONLY_SAMPLES: list = []
 # ------------------------------------------------------------------------------------------------
 # specs
 # ------------------------------------------------------------------------------------------------
-def gen_cond(rng):
+#: values of a condition beyond one digit: around every power of ten the writer / reader could cut at, and the largest
+#: number the native accepts (`BOUND - 1`)
+WIDE_VALUES = [9, 10, 11, 12, 20, 99, 100, 101, 1000, BOUND - 1]
+#: mode indices beyond one digit (a state then has up to 100 modes)
+WIDE_MODES = [9, 10, 11, 12, 19, 20, 21, 31, 99]
+
+
+def gen_cond(rng, wide=False, n_modes=None):
+    """`wide`: values and mode indices of several digits too; `n_modes`: every mode index below it (the
+    expression is meant for an experiment of that size)"""
     k = rng.choice([1, 1, 1, 2, 2, 3])
-    return {"k": "cond", "modes": sorted(rng.sample(range(N_MODES), k)), "c": rng.choice(CMPS),
-            "n": rng.randrange(4)}
+    pool = list(range(N_MODES if n_modes is None else n_modes))
+    if wide and n_modes is None and rng.random() < 0.35:
+        pool = pool + WIDE_MODES
+        k_wide = rng.randint(1, k)
+        modes = set(rng.sample(WIDE_MODES, k_wide))
+        while len(modes) < k:
+            modes.add(rng.choice(pool))
+        modes = sorted(modes)
+    else:
+        modes = sorted(rng.sample(pool, min(k, len(pool))))
+    n = rng.choice(WIDE_VALUES) if wide and rng.random() < 0.5 else rng.randrange(4)
+    return {"k": "cond", "modes": modes, "c": rng.choice(CMPS), "n": n}
 
 
-def gen_expr(rng, depth, same_op=None):
+def gen_expr(rng, depth, same_op=None, wide=False, n_modes=None):
     """a well-formed expression: all six comparators, the three operators, negations in every position
-    (also as a non-last operand), groups nested in a group of the same operator (the native tree is not
-    flattened), 2..4 operands, 1..3 modes among 0..4, values 0..3"""
+    (also as a non-last operand) of single conditions and of groups, groups nested in a group of the same
+    operator (the native tree is not flattened), 2..4 operands, 1..3 modes; values 0..3 and modes 0..4, with
+    `wide` also the values of `WIDE_VALUES` and the modes of `WIDE_MODES`"""
     r = rng.random()
     if depth <= 0 or r < 0.28:
-        return gen_cond(rng)
+        return gen_cond(rng, wide, n_modes)
     if r < 0.5:
-        return {"k": "not", "x": gen_expr(rng, depth - 1)}
+        return {"k": "not", "x": gen_expr(rng, depth - 1, wide=wide, n_modes=n_modes)}
     op = same_op if (same_op is not None and rng.random() < 0.5) else rng.choice(BOPS)
     k = rng.choice([2, 2, 2, 3, 3, 4])
-    return {"k": "nary", "op": op, "args": [gen_expr(rng, depth - 1, same_op=op) for _ in range(k)]}
+    return {"k": "nary", "op": op,
+            "args": [gen_expr(rng, depth - 1, same_op=op, wide=wide, n_modes=n_modes) for _ in range(k)]}
 
 
 def spec_size(s):
@@ -93,16 +118,36 @@ def features(s, out=None, last=True, parent=None):
     if s["k"] == "cond":
         out.add("cmp" + s["c"])
         out.add(f"modes{len(s['modes'])}")
+        if s["n"] >= 10:
+            out.add("value-multidigit")
+        if s["n"] == BOUND - 1:
+            out.add("value-max")
+        if any(m >= 10 for m in s["modes"]):
+            out.add("mode-multidigit")
+            if len(s["modes"]) > 1:
+                out.add("modes-list-multidigit")
     elif s["k"] == "not":
         out.add("not")
         if parent is not None and not last:
             out.add("not-nonlast-operand")
         if parent is not None and last:
             out.add("not-last-operand")
+        if parent is None:
+            out.add("not-top-or-nested")
         if s["x"]["k"] == "not":
             out.add("not-not")
         if s["x"]["k"] == "nary":
             out.add("not-group")
+            if any(c[2] >= 10 for c in cond_list(s["x"])):
+                out.add("not-group-multidigit")
+        if s["x"]["k"] == "cond":
+            out.add("not-single")
+            if s["x"]["n"] >= 10:
+                out.add("not-single-multidigit")
+                if parent is not None and not last:
+                    out.add("not-single-multidigit-nonlast")
+            if any(m >= 10 for m in s["x"]["modes"]):
+                out.add("not-single-mode-multidigit")
         features(s["x"], out, True, None)
     else:
         out.add("op" + s["op"])
@@ -111,6 +156,21 @@ def features(s, out=None, last=True, parent=None):
             out.add("same-op-nested")
         for i, a in enumerate(s["args"]):
             features(a, out, i == len(s["args"]) - 1, s["op"])
+    return out
+
+
+def cond_list(s, out=None):
+    """(modes, comparator, value) of every condition of the expression"""
+    out = [] if out is None else out
+    if s is None:
+        return out
+    if s["k"] == "cond":
+        out.append((list(s["modes"]), s["c"], s["n"]))
+    elif s["k"] == "not":
+        cond_list(s["x"], out)
+    else:
+        for a in s["args"]:
+            cond_list(a, out)
     return out
 
 
@@ -173,12 +233,33 @@ def _tokens(spec, rng, top=False):
     return ["("] + toks + [")"]
 
 
-def user_text(spec, rng):
-    """an unambiguous spelling of `spec` for `PostSelect(text)`"""
+#: the keyword spellings of the native parser (case matters: `And`, `not` are refused)
+KEYWORDS = {"&": ["and", "AND"], "|": ["or", "OR"], "^": ["xor", "XOR"], "!": ["NOT"]}
+
+
+def user_texts(spec, rng, p_keyword=0.4):
+    """two unambiguous spellings of `spec` for `PostSelect(text)` with the same tokens and white space: the
+    first uses the symbols `& | ^ !` only (the syntax `Model/C15PS.lean` reads), in the second each of them is
+    replaced with probability `p_keyword` by one of its keyword spellings.  -> (text, keyword text, keywords used)"""
     if spec is None:
-        return " " * rng.choice([0, 0, 1, 3])
+        t = " " * rng.choice([0, 0, 1, 3])
+        return t, t, []
     toks = _tokens(spec, rng, top=True)
-    return _sp(rng) + "".join(t + _sp(rng) for t in toks)
+    gaps = [_sp(rng) for _ in range(len(toks) + 1)]
+    used = []
+    ktoks = []
+    for t in toks:
+        if t in KEYWORDS and rng.random() < p_keyword:
+            t = rng.choice(KEYWORDS[t])
+            used.append(t)
+        ktoks.append(t)
+    render = lambda tk: gaps[0] + "".join(t + g for t, g in zip(tk, gaps[1:]))   # noqa: E731
+    return render(toks), render(ktoks), used
+
+
+def user_text(spec, rng, p_keyword=0.0):
+    """an unambiguous spelling of `spec` for `PostSelect(text)` (symbols only unless `p_keyword` > 0)"""
+    return user_texts(spec, rng, p_keyword)[1 if p_keyword else 0]
 
 
 # ------------------------------------------------------------------------------------------------
@@ -217,6 +298,8 @@ def print_spec(spec, fixed):
 
 
 _STATES = None
+#: a condition whose value is beyond this many photons gets no state at its boundary (only far below it)
+MAX_PHOTONS = 1200
 
 
 def all_states():
@@ -228,18 +311,83 @@ def all_states():
     return _STATES
 
 
-def truth_table(ps):
-    return [bool(ps(bs)) for _, bs in all_states()]
+def states_for(conds, width=N_MODES, n_random=48):
+    """the states on which two post-selections are compared, chosen from their conditions `(modes, cmp, value)`:
+    every state is at least `width` and at least `1 + largest mode index` wide (the native reads beyond a
+    narrower state: not part of the text format, never exercised here).  Width 5: all 243 states with 0..2 photons
+    per mode, otherwise `n_random` states with 0..2 photons per mode; plus, for every condition (the first 16), three
+    states whose photon number in the modes of the condition is value - 1, value, value + 1 (the other modes random)
+    - so a condition on a count of several digits is decided on both sides of its threshold.  Deterministic in
+    `conds`."""
+    import random
+    import zlib
+    from perceval.utils import BasicState
+    conds = [(list(m), c, n) for m, c, n in conds]
+    width = max([width] + [max(m) + 1 for m, _, _ in conds if m])
+    rng = random.Random(zlib.crc32(json.dumps([width, conds]).encode()))
+    out = list(all_states()) if width == N_MODES else []
+    extra = []
+    if width != N_MODES:
+        extra.append([0] * width)
+        for _ in range(n_random):
+            extra.append([rng.choice([0, 0, 1, 1, 2]) for _ in range(width)])
+    for modes, _, n in conds[:16]:
+        for target in (n - 1, n, n + 1):
+            if target < 0 or target > MAX_PHOTONS:
+                continue
+            st = [rng.choice([0, 0, 1, 2]) for _ in range(width)]
+            rest = target
+            order = list(modes)
+            rng.shuffle(order)
+            for i, m in enumerate(order):
+                st[m] = rest if i == len(order) - 1 else rng.randint(0, rest)
+                rest -= st[m]
+            extra.append(st)
+    out += [(tuple(c), BasicState(c)) for c in extra]
+    return out
 
 
-def spec_table(spec):
-    return [eval_spec(spec, c) for c, _ in all_states()]
+_COND_RE = None
 
 
-def first_diff(t1, t2):
-    for (c, _), a, b in zip(all_states(), t1, t2):
+def conds_of_text(text):
+    """the conditions `(modes, cmp, value)` of a printed PostSelect (`str(ps)`), for `states_for`"""
+    global _COND_RE
+    import re
+    if _COND_RE is None:
+        _COND_RE = re.compile(r"\[([0-9, ]*)\] (==|!=|<=|>=|<|>) ([0-9]+)")
+    out = []
+    for ms, c, n in _COND_RE.findall(text):
+        modes = [int(v) for v in ms.replace(" ", "").split(",") if v]
+        if modes and all(m < 4096 for m in modes):
+            out.append((modes, c, int(n)))
+    return out
+
+
+def truth_table(ps, states=None):
+    return [bool(ps(bs)) for _, bs in (all_states() if states is None else states)]
+
+
+def spec_table(spec, states=None):
+    return [eval_spec(spec, c) for c, _ in (all_states() if states is None else states)]
+
+
+def first_diff(t1, t2, states=None):
+    for (c, _), a, b in zip(all_states() if states is None else states, t1, t2):
         if a != b:
             return list(c), a, b
+    return None
+
+
+def same_postselect(x, y, width=N_MODES):
+    """the direct oracle for two PostSelect objects without a spec (inside an experiment, a container, a file):
+    `None` when `y == x`, prints like `x` and decides like `x` on `states_for(conditions of x)`, otherwise a reason"""
+    if not (y == x) or str(x) != str(y):
+        return f"post-selection {str(x)!r} became {str(y)!r}"
+    states = states_for(conds_of_text(str(x)), width)
+    d = first_diff(truth_table(x, states), truth_table(y, states), states)
+    if d is not None:
+        return f"post-selection {str(x)!r}: on state {d[0]} the original gives {d[1]}, the copy {d[2]}"
     return None
 
 
@@ -349,13 +497,23 @@ def _short(s, n=160):
 def judge(driver, spec, rng, serialize, deserialize, fixed=True, stats=None, n_mut=8):
     """see the module docstring; `driver.ask_many` speaks to `Driver/C15PS.lean` (ops `ps`, `psparse`)"""
     st = STATS if stats is None else stats
-    utext = user_text(spec, rng)
+    utext, ktext, kws = user_texts(spec, rng)
     found_txt = print_spec(spec, False)
-    x_str, x = native_parse(utext)
+    x_str, x = native_parse(ktext)
     st["cases"] += 1
     if x is None:
         return ("broken", "model-vs-code:postselect-build",
-                f"the native constructor refuses the user text {utext!r} of spec {_short(spec)}")
+                f"the native constructor refuses the user text {ktext!r} of spec {_short(spec)}")
+    if kws:
+        # the keyword spellings are outside the model: tie them to the symbol spelling on the real code
+        st["keyword-text"] += 1
+        for k in kws:
+            st["keyword:" + k] += 1
+        s_str, s_obj = native_parse(utext)
+        if s_obj is None or s_str != x_str or not (s_obj == x):
+            return ("broken", "model-vs-code:postselect-keyword",
+                    f"PostSelect({ktext!r}) = {x_str!r} but the same text with symbols {utext!r} gives {s_str!r}")
+    states = states_for(cond_list(spec))
 
     # the model's view: both writers on the spec
     r_fix, r_found = driver.ask_many([{"op": "ps", "obj": spec, "fixed": True},
@@ -371,17 +529,22 @@ def judge(driver, spec, rng, serialize, deserialize, fixed=True, stats=None, n_m
         st["asfound-converse-mismatch"] += 1
 
     # ---- (a) the property on the real code -----------------------------------------------------
-    tx = truth_table(x)
+    tx = truth_table(x, states)
     try:
         y = deserialize(serialize(x))
         y_err = None
     except Exception as e:                                     # noqa: BLE001 (any failure is a failure)
         y, y_err = None, f"{type(e).__name__}: {e}"
-    sig = "postselect-negation-operand" if asfound_explains else "postselect-roundtrip"
+    # the known defect (a negation written without parentheses) only when the writer produced the as-found text
+    try:
+        wrote_as_found = serialize(x, compress=False) == PREFIX + r_found["text"]
+    except Exception:                                          # noqa: BLE001
+        wrote_as_found = False
+    sig = "postselect-negation-operand" if asfound_explains and wrote_as_found else "postselect-roundtrip"
     if y is None:
         return ("violation", sig, f"deserialize(serialize(PostSelect({x_str!r}))) raises {y_err}")
-    ty = truth_table(y)
-    d = first_diff(tx, ty)
+    ty = truth_table(y, states)
+    d = first_diff(tx, ty, states)
     if d is not None or not (y == x):
         where = "" if d is None else f"; on state {d[0]} the original gives {d[1]}, the copy {d[2]}"
         return ("violation", sig,
@@ -390,13 +553,13 @@ def judge(driver, spec, rng, serialize, deserialize, fixed=True, stats=None, n_m
     st["roundtrip-ok"] += 1
 
     # the object is the spec
-    d = first_diff(tx, spec_table(spec))
+    d = first_diff(tx, spec_table(spec, states), states)
     if d is not None:
         return ("broken", "model-vs-code:postselect-build",
-                f"PostSelect({utext!r}) = {x_str!r} gives {d[1]} on state {d[0]}, the spec {_short(spec)} gives {d[2]}")
+                f"PostSelect({ktext!r}) = {x_str!r} gives {d[1]} on state {d[0]}, the spec {_short(spec)} gives {d[2]}")
     if x_str != found_txt or x_str != r_found["text"]:
         return ("broken", "model-vs-code:postselect",
-                f"str(PostSelect({utext!r})) = {x_str!r}, model print(as found) = {r_found['text']!r}")
+                f"str(PostSelect({ktext!r})) = {x_str!r}, model print(as found) = {r_found['text']!r}")
 
     # ---- (b) writer and reader against the model ------------------------------------------------
     full = serialize(x, compress=False)
@@ -479,6 +642,12 @@ def _variants(s):
             yield dict(s, modes=s["modes"][1:])
         if s["n"] > 1:
             yield dict(s, n=1)
+        if s["n"] > 10:
+            yield dict(s, n=10)
+        if any(m >= N_MODES for m in s["modes"]):
+            yield dict(s, modes=list(range(len(s["modes"]))))
+        if any(m >= 10 for m in s["modes"]) and max(s["modes"]) > 10 + len(s["modes"]):
+            yield dict(s, modes=list(range(10, 10 + len(s["modes"]))))
         if s["c"] != "==":
             yield dict(s, c="==")
         return
